@@ -236,6 +236,9 @@ class Probe:
 
 def run(ctx):
     from oslo_utils import strutils
+    from vf import purity
+    _rec = purity.Recorder(strutils, ['split_path', 'split_by_commas'], every=7)
+    _rec.__enter__()
     quick = ctx.quick
     sfx = 'q' if quick else 't'
     ctx.assumptions += [
@@ -362,6 +365,8 @@ def run(ctx):
     ctx.sample({'malformed_case': res.records[len(res.records) // 2]})
     res.records = None
 
+    _rec.__exit__()
+    _rec.replay(ctx, 'c19')
     # 5. binding self-tests: subtly wrong functions must be exposed -----------------------------------
     orig_path, orig_commas = strutils.split_path, strutils.split_by_commas
 
